@@ -9,8 +9,8 @@ def mkFit (weights : List Rat) (s : String) : Option (Fit Rat) := do
   let v ← parseList parseRat s
   if v.isEmpty then some ⟨[]⟩ else setValues weights v
 
-def parseCv (s : String) : Option (Option (List Bool)) :=
-  if s = "none" then some none else (parseList parseBool s).map some
+def parseCv (s : String) : Option (Option (List Int)) :=
+  if s = "none" then some none else (parseList parseInt s).map some
 
 def mkCFit (weights : List Rat) (vs cvs : String) : Option (CFit Rat) := do
   let f ← mkFit weights vs
@@ -49,6 +49,20 @@ def handle : List String → String
     | some (x, y) => showBits [clt x y, cle x y, cgt x y, cge x y, ceq x y, cne x y] ++ " "
         ++ showBool (cdominates x y) ++ " " ++ showBool (violates x) ++ showBool (violates y) ++ " "
         ++ showBool (ceq (cdeepcopy x) x) ++ showBool (violates (cdeepcopy x))
+    | none => "bad-op"
+  | "chist" :: ws :: ops =>
+    match (do
+      let w ← parseList parseRat ws
+      let os ← ops.mapM (fun s =>
+        if s = "del" then some (COp.del : COp Rat)
+        else if s.startsWith "cv=" then (parseCv (s.drop 3).toString).map COp.setCv
+        else (parseList parseRat s).map COp.set)
+      pure (w, os)) with
+    | some (w, os) =>
+      let st := os.foldl (fun (acc : CFit Rat × List String) o =>
+        let f := cstep w acc.1 o
+        (f, acc.2 ++ [showBool (valid f.base) ++ showBool (violates f) ++ (if f.cv.isSome then "c" else "n")])) (⟨[], none⟩, [])
+      ",".intercalate st.2 ++ " " ++ showList showRat (getValues w st.1.base)
     | none => "bad-op"
   | _ => "bad-op"
 
